@@ -88,6 +88,9 @@ struct SessionsModel : Monitor {
 				step.authorised = s.raw_ok && s.logged_in && (no_check_ip || step.from_bound);
 				step.foreign = !no_check_ip && !step.from_bound;
 				if (no_check_ip || step.from_bound) s.t_hi = w->S.now;    // raw data/ping may count as activity
+				// a raw DATA frame of an established raw session from its own address, while that session is surely still alive, is
+				// accepted and counts as activity (there is no reply to read that from, unlike pings)
+				if (cmd == 2 && step.authorised && s.t_lo && w->S.now - s.t_lo < 57ull * 1000000 && d.data.size() > 4) { s.t_lo = w->S.now; w->probes["c04.rawdata_activity"]++; }
 			}
 			return;
 		}
@@ -664,6 +667,38 @@ J gen_sessions(uint64_t seed, const J &ov)
 		if (act == "pkt" || act == "rawdata") { op.set("ser", (long long)++ser); op.set("len", (int)r.range(40, 200)); op.set("body", "rnd"); op.set("dst", "srv"); }
 		if (r.chance(0.6) && act != "v") op.set("uid", (int)(r.chance(0.8) ? r.range(0, std::max(0, cap - 1)) : r.range(0, 255)));
 		ops.push(op);
+	}
+	// a raw-mode session that stays busy with DATA frames only (no pings, no DNS traffic) for more than a minute: it is active, its
+	// slot must not be given away and packets for its address must keep reaching it
+	if (!ffrag && !fpool) for (auto &m : models.a) {
+		if (!m.has("auto_until_s") || m.gets("name")[0] != 'm' || m.has("use_v6") || !r.chance(0.35)) continue;
+		double stop = m.getd("auto_until_s");
+		if (stop + 100 > T || stop < 6) continue;
+		m.set("raw_talker", true);
+		{ J op = J::obj(); op.set("ref", "abs"); op.set("t", (long long)((stop - 3) * 1e6)); op.set("op", "mc"); op.set("who", m.gets("name")); op.set("act", "rawlogin"); op.set("mode", "good"); ops.push(op); }
+		double tt = stop - 2, tend = stop + 70 + r.uniform() * 25;
+		while (tt < tend) {
+			J op = J::obj(); op.set("ref", "abs"); op.set("t", (long long)(tt * 1e6)); op.set("op", "mc"); op.set("who", m.gets("name")); op.set("act", "rawdata");
+			op.set("ser", (long long)++ser); op.set("len", (int)r.range(40, 300)); op.set("body", "rnd"); op.set("dst", "srv");
+			ops.push(op);
+			tt += 2 + r.uniform() * 9;
+		}
+		{ J op = J::obj(); op.set("ref", "abs"); op.set("t", (long long)((stop + 62 + r.uniform() * 6) * 1e6)); op.set("op", "mc"); op.set("who", "a" + std::to_string(r.range(0, na - 1))); op.set("act", "v"); ops.push(op); }
+		for (int j = 0; j < 3; j++) {
+			J t2 = J::obj(); t2.set("ref", "abs"); t2.set("t", (long long)((stop + 30 + r.uniform() * 60) * 1e6)); t2.set("op", "tun"); t2.set("at", "srv"); t2.set("ser", (long long)++ser);
+			t2.set("len", (int)r.range(40, 400)); t2.set("body", "rnd"); t2.set("src", "ext"); t2.set("dst", m.gets("name"));
+			ops.push(t2);
+		}
+	}
+	// someone who knows the password but skips the DNS login: version handshake, then straight to the raw login
+	if (!ffrag && !fpool && r.chance(0.3)) {
+		J k = J::obj(); k.set("name", "k0"); k.set("ip", "10.9.6.1"); k.set("auto", false);
+		models.push(k); cfg.set("models", models);
+		double tk = 5 + r.uniform() * (T - 20);
+		{ J op = J::obj(); op.set("ref", "abs"); op.set("t", (long long)(tk * 1e6)); op.set("op", "mc"); op.set("who", "k0"); op.set("act", "v"); ops.push(op); }
+		{ J op = J::obj(); op.set("ref", "abs"); op.set("t", (long long)((tk + 0.4) * 1e6)); op.set("op", "mc"); op.set("who", "k0"); op.set("act", "rawlogin"); op.set("mode", "good"); ops.push(op); }
+		if (r.chance(0.5)) { J op = J::obj(); op.set("ref", "abs"); op.set("t", (long long)((tk + 0.8) * 1e6)); op.set("op", "mc"); op.set("who", "k0"); op.set("act", "rawping"); ops.push(op); }
+		if (r.chance(0.5)) { J op = J::obj(); op.set("ref", "abs"); op.set("t", (long long)((tk + 1.0) * 1e6)); op.set("op", "mc"); op.set("who", "k0"); op.set("act", "rawdata"); op.set("ser", (long long)++ser); op.set("len", 80); op.set("body", "rnd"); op.set("dst", "srv"); ops.push(op); }
 	}
 	// a slot that changes hands without a login: after a session has expired, someone without the password does the version
 	// handshake (and gets the expired slot, the first one free), then packets for the old owner's address arrive from the tun
